@@ -39,6 +39,10 @@ def w_density(case):
     # The same float arrays are handed to every call (no copies): evaluations must
     # neither modify them nor depend on what was evaluated before.
     a_par, a_ybar, a_y, a_S = params.copy(), ybar.copy(), y.copy(), S.copy()
+    if case.get('ints'):
+        # whole-number arguments handed over as integer arrays
+        a_par, a_ybar, a_y, a_S = [a.astype(int) for a in (a_par, a_ybar, a_y, a_S)]
+        params, ybar, y, S = [a.astype(float) for a in (a_par, a_ybar, a_y, a_S)]
     # total
     got_tot = em.compute_log_likelihood(a_par, a_ybar, a_y)
     n_tr += 1
@@ -331,6 +335,16 @@ def build(tier, seed):
                             cases.append({
                                 'model': model, 'ybar': ybar, 'y': y,
                                 'params': list(params), 'p': p, 'sens': sens})
+    for model in ref.MODELS:
+        for n in (1, 2, 3):
+            for ybar_i in itertools.permutations([1, 2, 4], n):
+                for y_i in itertools.permutations([1, 3, 5], n):
+                    for par in itertools.product([1, 2], repeat=ref.N_PARAMS[model]):
+                        for p in (0, 2):
+                            cases.append({
+                                'model': model, 'ybar': list(ybar_i),
+                                'y': list(y_i), 'params': list(par), 'p': p,
+                                'sens': [1, -2, 3, 1, 2, -1][:n * p], 'ints': True})
     norm_cases = []
     for model in ref.MODELS:
         for params in itertools.product(*scale[model]):
